@@ -610,6 +610,25 @@ class C07Plan(C04Plan):
         super().evidence(tier, seed, t0, tasks, results, by_sig, known_seen, st, extra=extra, **kw)
 
 
+class C02Plan(RunPlan):
+    prop = "C02"
+    engine = "A"
+    quick_runs = 2500
+    thorough_runs = 150000
+    rule = ("one evaluation = one simulated history (<=60 ops) of expression evaluations over units, prefixes and "
+            "dimensions (both sides of every group law as separate evaluations at different points of the history, "
+            "plus random trees with * / ** root) interleaved with everything else that enters the intern tables: "
+            "definitions, naming of already-interned compounds, as_ratio, rendering, parsing, pickle/copy/JSON round "
+            "trips, a process restart with decode-before-rebuild, cache eviction, one async exception. Oracle: a table "
+            "model normal form -> first object seen in this world; every later value with that normal form must be "
+            "the very same object (is), neutral elements must be One/IdentityPrefix/Number, a law instance the model "
+            "says is defined must not be refused; mixed-base prefix arithmetic is held to 1e-9 numerically. "
+            "Non-trivial = >=1 identity check; distinct = distinct digests.")
+
+    def params(self, tier):
+        return {"late_imports": list(ALL_MODULES), "faults": True}
+
+
 class C09Plan(RunPlan):
     prop = "C09"
     engine = "BOOT"
@@ -710,4 +729,4 @@ class C09Plan(RunPlan):
 
 
 PLANS = {"C20": C20Plan, "C19": C19Plan, "C08": C08Plan, "C04": C04Plan, "C05": C05Plan, "C07": C07Plan,
-         "C09": C09Plan}
+         "C09": C09Plan, "C02": C02Plan}
